@@ -280,8 +280,16 @@ Bytes genHostileFrame(Ctx& c, Rng& r, std::string& kind)
         // large well-formed frame close to 64 KiB
         uint8_t mt;
         GMsg m = genMsg(r, K_ETH, r.range(30000, 65535), mt);
-        f = buildFrame(1, pickDevice(r), wire::MT_DATA, pickStream(r), static_cast<uint16_t>(r.next()), {m});
-        kind = "large-cmp";
+        std::vector<GMsg> ms = {m};
+        if (r.chance(1, 2))
+        {
+            // several large messages: the frame exceeds 64 KiB
+            size_t k = r.range(1, 3);
+            for (size_t i = 0; i < k; ++i)
+                ms.push_back(genMsg(r, r.chance(1, 2) ? K_ETH : K_GEN_DATA, r.chance(1, 3) ? r.range(1, 40) : r.range(20000, 65535), mt));
+        }
+        f = buildFrame(1, pickDevice(r), wire::MT_DATA, pickStream(r), static_cast<uint16_t>(r.next()), ms);
+        kind = ms.size() > 1 ? "cmp-longer-than-64KiB" : "large-cmp";
     }
     size_t muts = r.below(4);
     for (size_t i = 0; i < muts; ++i)
